@@ -874,3 +874,23 @@ def kf_platform_rewriting_not_invariant(case, failure):
     string before normalization and is not invariant under the family; without the option the
     two spellings agree (or fail for one of the other classes)."""
     return _explain(case, failure) == "platform_rewriting_not_invariant"
+
+
+# the laws the theorems assume of the label decoder (abstract parameter `puny` of the model), on the
+# real decode_punycode_hostname, over the enumerated class of ACE labels, on every run (shared:
+# harness/punylaws.py; a failure is reported as a broken obligation `law`)
+RUN_OBLIGATION_GROUPS = ('PunyLaws', 'PunyCase')
+RUN_OBLIGATIONS = "%s of the real label decoder over the enumerated ACE label class of harness/punylaws.py" % " + ".join(RUN_OBLIGATION_GROUPS)
+
+
+TRUSTED = list(TRUSTED) + [
+    "the label decoder `puny` = the real decode_punycode_hostname on one label (harness/punylaws.py: decode_label; the per-case tables come from it); "
+    + RUN_OBLIGATIONS + ": hypotheses of the theorems, evaluated on every run (broken obligation `law` when one fails), not proved of CPython's idna codec"
+]
+
+
+def run_obligations(tier):
+    import punylaws
+
+    return punylaws.run_obligations(RUN_OBLIGATION_GROUPS, tier)
+
